@@ -76,11 +76,11 @@ Definition proj_att (a : attempt_rec) : att_obs :=
 Definition att_demanded (i : nat) (o : outcome) (a : att_obs) : bool :=
   let '(rs, er, t) := a in
   t && match o with
-       | OOk => resp_eqb rs (RGood i) && err_eqb er ENone
-       | OErr => resp_eqb rs RNone && err_eqb er (EPlug i false)
-       | OPerm => resp_eqb rs RNone && err_eqb er (EPlug i true)
-       | OWrongType => resp_eqb rs RNone && err_eqb er (EEngine true)
        | OOverrun => resp_eqb rs RNone && err_eqb er (EEngine false)
+       | ORet PBad _ => resp_eqb rs RNone && err_eqb er (EEngine true)        (* never stored; type error *)
+       | ORet prs per =>
+           resp_eqb rs (match prs with PGood => RGood i | _ => RNone end)
+           && err_eqb er (match per with PNoErr => ENone | PTrans => EPlug i false | PPerm => EPlug i true end)
        end.
 
 Fixpoint atts_demanded (script : nat -> outcome) (i : nat) (l : list att_obs) : bool :=
